@@ -193,6 +193,7 @@ def order_taint(prog: Program, model: Optional[Model], fi: FuncInfo) -> List[Tup
     fn = fi.node
     par = parents(fn)
     tainted: Dict[str, str] = {}          # local name -> elem kind
+    taint_def: Dict[str, ast.expr] = {}   # local name -> the set expression it was assigned
 
     def set_kind(e: ast.expr) -> Optional[str]:
         """elem kind if `e` evaluates to a set, else None."""
@@ -242,14 +243,37 @@ def order_taint(prog: Program, model: Optional[Model], fi: FuncInfo) -> List[Tup
                 k = set_kind(n.value)
                 if k is not None and tainted.get(n.targets[0].id) != k:
                     tainted[n.targets[0].id] = k
+                    taint_def[n.targets[0].id] = n.value
                     changed = True
 
     out: List[Tuple[str, ast.AST, str, str]] = []
     ordinal: Dict[str, int] = {}
 
+    local_names = {a.arg for a in list(fn.args.args) + list(fn.args.kwonlyargs) + list(fn.args.posonlyargs)} | {
+        t.id for n_ in ast.walk(fn) for t in ast.walk(n_) if isinstance(t, ast.Name) and isinstance(t.ctx, ast.Store)}
+
+    def norm_src(src: ast.expr) -> str:
+        # the finding is the set expression and its consumer, wherever a refactoring moves them: locals are anonymised
+        import copy
+
+        class _N(ast.NodeTransformer):
+            depth = 0
+
+            def visit_Name(self, n_: ast.Name) -> ast.AST:
+                if n_.id in taint_def and self.depth < 3:
+                    # a set held in a local is named by the expression that built it
+                    self.depth += 1
+                    r_ = self.visit(copy.deepcopy(taint_def[n_.id]))
+                    self.depth -= 1
+                    return r_
+                return ast.copy_location(ast.Name(id="_", ctx=n_.ctx), n_) if n_.id in local_names and n_.id != "self" else n_
+        return ast.unparse(_N().visit(copy.deepcopy(src))).replace("frozenset(", "set(")[:90]
+
     def report(node: ast.AST, sink: str, k: str, src: ast.expr) -> None:
-        ordinal[sink] = ordinal.get(sink, 0) + 1
-        construct = f"{fi.qualname}: set -> {sink} #{ordinal[sink]}"
+        owner = fi.cls.name if getattr(fi, "cls", None) is not None else fi.module.name
+        base = f"{owner}: `{norm_src(src)}` -> {sink}"
+        ordinal[base] = ordinal.get(base, 0) + 1
+        construct = base + (f" #{ordinal[base]}" if ordinal[base] > 1 else "")
         k = k if k else "unknown"
         if k in ("str", "bytes", "object", "key"):
             out.append(("VIOLATED", node, construct,
@@ -275,7 +299,11 @@ def order_taint(prog: Program, model: Optional[Model], fi: FuncInfo) -> List[Tup
             if how == "for":
                 body_effect = any(isinstance(x, (ast.AugAssign, ast.Return, ast.Yield)) or
                                   (isinstance(x, ast.Call) and isinstance(x.func, ast.Attribute)
-                                   and x.func.attr in ("append", "extend", "insert", "write", "random_choice", "random_int"))
+                                   and x.func.attr in ("append", "extend", "insert", "write", "random_choice", "random_int",
+                                                       "setdefault", "update", "appendleft"))
+                                  # d[k] = v inside the loop: insertion order of a dict is iteration order
+                                  or (isinstance(x, (ast.Assign, ast.AnnAssign)) and any(
+                                      isinstance(t, ast.Subscript) for t in (x.targets if isinstance(x, ast.Assign) else [x.target])))
                                   for st in holder.body for x in ast.walk(st))  # type: ignore
                 if body_effect:
                     report(holder, "for", k, it)
@@ -352,6 +380,7 @@ def check(run: Run, prog: Program, model: Model, tier: str) -> None:
         "hidden-state rule on the generation classes. With CPython's documented random.seed determinism "
         "this decides the property for all seeds, schema sequences and hash seeds, except inside the "
         "property's own uuid4/datetime/date exemption.")
+    run.explanation += " A subscript store inside a loop over a set is an order-sensitive consumer. ORDER-TAINT findings are keyed by owner class, normalised set expression and consumer, so that moving the expression does not change the finding's identity."
     run.rule_text = ("one obligation per external reference in scope (classified by the entropy table), per "
                      "set-valued expression reaching a consumer, per attribute write in a generation class; "
                      "non-trivial = needed callee resolution through self attributes or element-kind inference")
@@ -624,6 +653,8 @@ R = "d42/generation/_random.py"
 G = "d42/generation/_generator.py"
 X = "d42/generation/_regex_generator.py"
 MUTANTS = [
+    {"name": "merged key table filled by a loop over a set union of the keys (seeded C17-J)", "rule": "ORDER-TAINT",
+     "edits": [("d42/declaration/types/_dict_schema.py", "        merged_keys = {**self_keys, **other_keys}", "        merged_keys = {}\n        for key in self_keys.keys() | other_keys.keys():\n            merged_keys[key] = other_keys[key] if (key in other_keys) else self_keys[key]")]},
     {"name": "random_choice via secrets.choice", "rule": "SEEDED-ENTROPY",
      "edits": [(R, "import random\n", "import random\nimport secrets\n"),
                (R, "        return random.choice(sequence)", "        return secrets.choice(sequence)")]},
